@@ -32,6 +32,7 @@ json generate(uint64_t seed, uint64_t idx, int tier)
 	sg.max_opts = 5;
 	sg.max_depth = 2;
 	sg.string_defaults_hostile = true;
+	sg.decl_comments = true;
 	json schema = gen_schema(r, sg);
 	bool instances = idx % 3 == 2;
 	if (instances) {
@@ -88,8 +89,24 @@ json generate(uint64_t seed, uint64_t idx, int tier)
 				json s = step(cl, r.chance(1, 2) ? "setvalidate" : "setprintfunc", 0);
 				s["name"] = r.pick(paths);
 				steps.push_back(s);
-			} else if (k < 97)
+			} else if (k < 95)
 				steps.push_back(step(cl, "print", 0));
+			else if (k < 97) {
+				// a single section removed and created again must come back with its declared defaults
+				std::vector<std::string> singles;
+				for (auto &o : schema["opts"])
+					if (o["t"] == "sec" && !(o.value("fl", 0) & (F_MULTI | F_TITLE)))
+						singles.push_back(o["n"].get<std::string>());
+				if (!singles.empty()) {
+					std::string name = r.pick(singles);
+					json rm = step(cl, "rmsec", 0);
+					rm["name"] = name;
+					steps.push_back(rm);
+					json p = parse_step(cl, 0, "buf", name + " { }\n");
+					p["recreated"] = name;
+					steps.push_back(p);
+				}
+			}
 			else {
 				// one party goes away and comes back: the other must not notice
 				steps.push_back(step(cl, "free", 0));
@@ -215,6 +232,29 @@ JudgeOut judge(const json &plan)
 	if (r.died)
 		return out;
 	const json &steps = plan["steps"];
+	// a re-created single section equals the one cfg_init() created
+	{
+		std::map<int, json> init_tree;
+		for (auto &o : r.ops) {
+			if (o.index < 0 || (size_t)o.index >= steps.size())
+				continue;
+			const json &st = steps[o.index];
+			int key = o.client * 1000 + o.ctx;
+			if (o.op == "init" && !o.tree.is_null())
+				init_tree[key] = o.tree;
+			if (st.contains("recreated") && o.ret == 0 && init_tree.count(key) && !o.tree.is_null()) {
+				std::string name = st["recreated"].get<std::string>();
+				const json *a = subtree(init_tree[key], name, 0), *b = subtree(o.tree, name, 0);
+				if (a && b) {
+					out.k.add("probe.single_section_recreated");
+					if (*a != *b)
+						out.viol.push_back({"recreated-section-differs", "single section '" + name + "' removed and created again does not have the declared sub-options and defaults\n  from cfg_init: " + a->dump().substr(0, 400) +
+													 "\n  re-created:    " + b->dump().substr(0, 400),
+								    nullptr});
+				}
+			}
+		}
+	}
 	for (int cl = 0; cl < 2 && out.viol.empty(); cl++) {
 		ExecOpts so = eo;
 		so.only_client = cl;
@@ -304,7 +344,7 @@ Property P = [] {
 		 "context driven by two parties, then a third instance created late; every step is compared with the party's solo run; distinct = distinct (schedule, plan) pairs";
 	p.assumptions = {"options bound to caller variables (CFG_SIMPLE_*) are not generated: sharing the caller's variable is their contract",
 			 "ambient errno is pinned to 0 and texts never end inside a string or comment, so the mechanisms of C08/C04 cannot fire here"};
-	p.probes = {"declarations_poisoned_and_freed", "step_compared_with_solo_run", "third_instance_created_late"};
+	p.probes = {"declarations_poisoned_and_freed", "step_compared_with_solo_run", "third_instance_created_late", "single_section_recreated"};
 	p.components = {{"confuse.c cfg_dupopt_array / cfg_setopt section copy / cfg_free_opt_array", "real"}, {"declaration memory", "stub: owned, poisoned and freed by the simulator"}, {"scheduler", "stub: seeded interleaving of two clients"}};
 	p.quick_seconds = 20;
 	p.thorough_seconds = 300;
